@@ -237,7 +237,7 @@ static Shape shape_by_name(const std::string& n)
 {
     static const std::map<std::string,std::vector<int>> tab = {
         {"S1",{2}}, {"S2",{3}}, {"S3",{2,2}}, {"S4",{2,3}}, {"S5",{3,2}}, {"S6",{2,2,2}},
-        {"S7",{2,3,2}}, {"S8",{2,2,2,2}}, {"S9",{3,3}}, {"S10",{4}}, {"S11",{3,2,2}}, {"S12",{2,2,3}}
+        {"S7",{2,3,2}}, {"S8",{2,2,2,2}}, {"S9",{3,3}}, {"S10",{4}}, {"S11",{3,2,2}}, {"S12",{2,2,3}}, {"S13",{3,4}}
     };
     Shape s; s.name = n; s.b = tab.at(n); return s;
 }
